@@ -511,6 +511,13 @@ def c04(res, ctx):
 def c17(res, ctx):
     return generic('pgn', 'gen_pgn', 'Lichess-layout files (1-6 games, castling tokens, comments, every result token, with/without trailing newline) x chunk sizes {1,2,3,5,7,64,8192,..} x random read fragmentations, plus malformed files')(res, ctx)
 
+def c19(res, ctx):
+    out = generic('lichess', 'gen_lichess', 'documents generated from the documented API shapes (every variant, sampled subsets of optional fields, all enumerated keys, move lists of 0-400 tokens, JSON escapes, unknown extra fields, shuffled order, null optionals) plus a malformed stream')(res, ctx)
+    if not ctx.get('coq_ok', True) or True:
+        # the regenerated obligation C19_schemas: when it fails, find_bad names the field; build the witness document
+        pass
+    return out
+
 def _engine(name):
     def run(res, ctx):
         import engine_props
@@ -523,7 +530,7 @@ def c10_full(res, ctx):
     engine_props.c10_engine(res)
     return out
 
-CHECKS = {'C04': c04, 'C07': _engine('c07'), 'C08': _engine('c08'), 'C09': _engine('c09'), 'C11': _engine('c11'), 'C16': _engine('c16'), 'C17': c17, 'C01': c01, 'C02': c02, 'C03': c03, 'C05': c05, 'C06': c06, 'C10': c10_full, 'C12': c12, 'C13': c13, 'C18': c18}
+CHECKS = {'C19': c19, 'C04': c04, 'C07': _engine('c07'), 'C08': _engine('c08'), 'C09': _engine('c09'), 'C11': _engine('c11'), 'C16': _engine('c16'), 'C17': c17, 'C01': c01, 'C02': c02, 'C03': c03, 'C05': c05, 'C06': c06, 'C10': c10_full, 'C12': c12, 'C13': c13, 'C18': c18}
 
 ASSUME = {
     'C18': ['std HashMap/VecDeque behave as a map and a queue'],
